@@ -1,11 +1,11 @@
 """C06 Results are deterministic across processes, hash seeds and worker schedules."""
 from pyvc.tables import run_gen
-from contracts import c_determinism, c_processing_scheduler
+from contracts import c_determinism, c_processing_scheduler, c_fill_transaction
 
 
 def units():
     sched = c_processing_scheduler
-    return c_determinism.UNITS + [sched.step, sched.loop, sched.final_sort]       # the loop is proved against the step's contract
+    return c_determinism.UNITS + [sched.step, sched.loop, sched.final_sort] + c_fill_transaction.UNITS       # the loop is proved against the step's contract
 
 
 def extra(tier, seed):
